@@ -43,6 +43,19 @@ Setup ==
               [op |-> "NewRec", h |-> "d1", k |-> "activity", via |-> "new_record", id |-> <<NamePL("ex", Y)>>,
                formals |-> << <<"startTime", [t |-> "dt", v |-> "t2"]>> >>, extras |-> <<>>] >>
       ELSE <<>>)
+  \* mode "dotb": relations that need a blank node (n-ary) at top level AND inside a bundle, and a
+  \* bundle that states one element twice (unification happens per bundle)
+  \o (IF Mode = "dotb"
+      THEN LET gen(h) == [op |-> "NewRec", h |-> h, k |-> "generation", via |-> "new_record", id |-> <<>>,
+                          formals |-> << <<"entity", [t |-> "name", n |-> NamePL("ex", X)]>>,
+                                         <<"activity", [t |-> "name", n |-> NamePL("ex", Y)]>>,
+                                         <<"time", [t |-> "dt", v |-> "t1"]>> >>, extras |-> <<>>]
+               ent(h, v) == [op |-> "NewRec", h |-> h, k |-> "entity", via |-> "new_record",
+                             id |-> <<NamePL("ex", X)>>, formals |-> <<>>,
+                             extras |-> << <<NameQN("ex", A, <<"attr">>), v>> >>]
+           IN << gen("d1"), [op |-> "Bundle", h |-> "d1", id |-> NamePL("ex", <<"b1">>), out |-> "b1"],
+                 gen("b1"), ent("b1", [t |-> "str", v |-> "s1"]), ent("b1", [t |-> "int", v |-> "7"]) >>
+      ELSE <<>>)
   \* mode "ns2": a document with its own default namespace and TWO bundles (what one bundle declares must
   \* not reach the next one)
   \o (IF Mode = "ns2" THEN << [op |-> "SetDefault", h |-> "d1", u |-> A],
@@ -338,6 +351,7 @@ Build ==
      THEN \/ (Len(hist) = NSetup /\ \E a \in ShapeActs("d1") : Step(a))
           \/ (Len(hist) > NSetup /\ \E a \in SecondActs : Step(a))
      ELSE IF Mode \in {"graph", "conflict"} THEN \E a \in GraphActs : Step(a)
+     ELSE IF Mode = "dotb" THEN \E a \in {x \in GraphActs : x.k \in {"usage", "agent"}} : Step(a) \/ Step([a EXCEPT !.h = "b1"])
      ELSE IF Mode = "ns2" THEN \E a \in Ns2Acts : DefaultOK(a) /\ Step(a)
      ELSE IF Mode = "rdf"
      THEN \/ (Len(hist) = NSetup /\ \E a \in RdfActs("d1") : Step(a))
